@@ -372,6 +372,81 @@ theorem C05_real_partial (h : Full_events_statement) : C05_real_statement := by
 
 end C05
 
+/-! ## `C04_real_statement` from `Full_events_statement` -/
+
+/-- a protocol event as an `EvB` step -/
+def ofCtl : CtlEv → EvB
+  | .other t => .tok true t
+  | e => .ev e
+
+theorem ofCtl_ok (e : CtlEv) (h : EvOk e) : (ofCtl e).Ok := by
+  cases e with
+  | other t => exact h
+  | start => exact h
+  | end_ => exact h
+
+theorem stepB_ofCtl (cfg : Cfg) (s : St) (hJ : J2 cfg s) (e : CtlEv) (h : EvOk e) :
+    stepB cfg s (ofCtl e) = ctlStep cfg s e := by
+  cases e with
+  | other t => exact tokIf_true_eq_other cfg s hJ.1.fault hJ.1.valid.wf t h
+  | start => rfl
+  | end_ => rfl
+
+theorem ctlSteps_eq_stepsB (cfg : Cfg) (evs : List CtlEv) :
+    ∀ (s : St), J2 cfg s → (∀ e ∈ evs, EvOk e) → (ctlSteps cfg s evs).2 = none →
+      stepsB cfg s (evs.map ofCtl) = ctlSteps cfg s evs := by
+  induction evs with
+  | nil => intro s _ _ _; rfl
+  | cons ev evs ih =>
+    intro s hJ hev hok
+    have hev0 := hev ev (by simp)
+    simp only [ctlSteps, List.map_cons, stepsB, stepB_ofCtl cfg s hJ ev hev0] at hok ⊢
+    cases hr : (ctlStep cfg s ev).2 with
+    | some err => simp [hr] at hok
+    | none =>
+      simp only [hr] at hok ⊢
+      exact ih _ (ctlStep_J2 cfg s hJ ev hev0 hr) (fun e he => hev e (by simp [he])) hok
+
+theorem tagEvents_ofCtl : ∀ (evs : List CtlEv), tagEvents (evs.map ofCtl) = evs.filterMap selEvOf
+  | [] => rfl
+  | .other t :: es => by
+    simp only [List.map_cons, ofCtl, tagEvents, List.filterMap_cons, selEvB, selEvOf]
+    exact tagEvents_ofCtl es
+  | .start n ns i t :: es => by
+    simp only [List.map_cons, ofCtl, tagEvents, List.filterMap_cons, selEvB]
+    have := tagEvents_ofCtl es
+    unfold tagEvents at this
+    rw [this]
+  | .end_ n t :: es => by
+    simp only [List.map_cons, ofCtl, tagEvents, List.filterMap_cons, selEvB]
+    have := tagEvents_ofCtl es
+    unfold tagEvents at this
+    rw [this]
+
+/-- **C04_real_partial.** `C04_real_statement` (every configuration, scanner mode included) follows from
+`Full_events_statement`: the VM and CSS part needs no further hypothesis. -/
+theorem C04_real_partial (h : Full_events_statement) : C04_real_statement := by
+  intro cfg settings chunks hne hsel hok
+  obtain ⟨evs, hev, hsteps⟩ := h cfg settings chunks hok
+  have hv : (St.init cfg).vm = some (SelVM.Vm.new (SelVM.Ast.ofSelectors cfg.selLists) cfg.esi) := by
+    unfold St.init Cfg.selLists
+    simp only [hne]
+    rfl
+  have hB := ctlSteps_eq_stepsB cfg evs _ (J2_init cfg) hev (by rw [hsteps])
+  obtain ⟨vm', hits, hrun, hfin⟩ := vm_runB cfg (evs.map ofCtl) (St.init cfg) _ 0 [] (J2_init cfg) hv
+    (fun e he => by
+      obtain ⟨c, hc, rfl⟩ := List.mem_map.1 he
+      exact ofCtl_ok c (hev c hc)) (by rw [hB, hsteps])
+  rw [hB, hsteps, ] at hfin
+  rw [tagEvents_ofCtl] at hrun
+  have hsel' : SelVM.runSelectors cfg.selLists cfg.esi (evs.filterMap selEvOf) = .ok hits := by
+    unfold SelVM.runSelectors
+    simp only [hrun, bind, Except.bind, pure, Except.pure]
+  have := C04_VM.C04_vm_refines_css cfg.selLists hsel cfg.esi (evs.filterMap selEvOf)
+  rw [hsel'] at this
+  simp only [Except.ok.injEq] at this
+  exact ⟨evs, hev, hsteps, vm', by rw [← this]; exact hrun, hfin⟩
+
 /-! ## non-vacuity -/
 
 example : ∃ (evs : List CtlEv) (tr : List TraceEntry) (sp' : List Spec.Scope.OpenElem), (∀ e ∈ evs, EvOk e) ∧
